@@ -7,9 +7,12 @@ import (
 	"math/rand"
 	"os"
 	"path/filepath"
+	"runtime/debug"
+	"runtime/pprof"
 	"sort"
 	"strconv"
 	"strings"
+	"sync"
 	"time"
 
 	"golang.org/x/tools/go/ssa"
@@ -87,7 +90,16 @@ func main() {
 	noTV := flag.Bool("notv", false, "skip translator validation (development only)")
 	noTwin := flag.Bool("notwin", false, "skip twin runs (development only)")
 	corpusAll := flag.Bool("corpus", false, "run the whole corpus differential and exit")
+	srcFile := flag.String("src", "", "debug: run one concrete program through the interpreter and print its stdout")
+	srcCfg := flag.String("cfg", "", "debug: configuration variant for -src")
+	srcEntry := flag.String("entry", "VerifRunSrc", "debug: entry for -src")
+	cpuprof := flag.String("cpuprofile", "", "write cpu profile")
 	flag.Parse()
+	if *cpuprof != "" {
+		f, _ := os.Create(*cpuprof)
+		pprof.StartCPUProfile(f)
+		defer pprof.StopCPUProfile()
+	}
 	if t := os.Getenv("VERIF_TIER"); t != "" && *tier == "" {
 		*tier = t
 	}
@@ -97,6 +109,7 @@ func main() {
 			seed = v
 		}
 	}
+	debug.SetGCPercent(200)
 	t0 := time.Now()
 	os.Chdir(filepath.Join(repoDir, "test"))
 
@@ -116,7 +129,32 @@ func main() {
 		os.Exit(2)
 	}
 	z3 := []string{"z3", "-in"}
+	if err := setupConfigRoots(nat.Dir); err != nil {
+		fmt.Println("ENGINE-ERROR:", err)
+		nat.Close()
+		os.Exit(2)
+	}
 
+	if *srcFile != "" {
+		b, err := os.ReadFile(*srcFile)
+		if err != nil {
+			fmt.Println(err)
+			os.Exit(2)
+		}
+		job := &Job{Name: "src", Pkg: "ti", Entry: *srcEntry, N: 0, Budget: 50000000, Source: string(b), File: "./a.rb", Config: *srcCfg, Replay: "none"}
+		res, err := RunJob(prog, job, 1, false, z3)
+		if err != nil {
+			fmt.Println(err)
+			os.Exit(2)
+		}
+		fmt.Printf("paths=%d ends=%v msgs=%v\n", res.Paths, res.EndKinds, res.EndMsgs)
+		for _, v := range res.Violations {
+			fmt.Printf("violation: %s %s %s\n", v.Kind, v.Class, v.Msg)
+		}
+		fmt.Print(lastOut)
+		nat.Close()
+		return
+	}
 	if *corpusAll {
 		tv := translatorValidation(prog, nat, 0, seed, *workers, z3)
 		fmt.Printf("corpus: files=%d same=%d diff=%d\n", tv.Files, tv.Same, len(tv.Diffs))
@@ -189,8 +227,8 @@ func main() {
 			nat.Close()
 			os.Exit(2)
 		}
-		fmt.Printf("job %s: paths=%d steps=%d queries=%d (sat %d unsat %d unknown %d) solver=%v wall=%v ends=%v\n",
-			job.Name, res.Paths, res.Steps, res.Queries, res.Sat, res.Unsat, res.Unknown, res.SolverTime.Round(time.Millisecond), res.Wall.Round(time.Millisecond), res.EndKinds)
+		fmt.Printf("job %s: paths=%d steps=%d maxsteps=%d queries=%d (sat %d unsat %d unknown %d) solver=%v wall=%v ends=%v\n",
+			job.Name, res.Paths, res.Steps, res.MaxSteps, res.Queries, res.Sat, res.Unsat, res.Unknown, res.SolverTime.Round(time.Millisecond), res.Wall.Round(time.Millisecond), res.EndKinds)
 		for m, c := range res.EndMsgs {
 			fmt.Printf("   inconclusive x%d: %s\n", c, m)
 		}
@@ -274,7 +312,7 @@ func main() {
 							os.Exit(2)
 						}
 					case "program":
-						rr = nat.ReplayProgram(&vv)
+						rr = nat.ReplayProgram(&vv, job.Config)
 					default:
 						rr = ReplayResult{Observed: "no replay defined"}
 					}
@@ -322,7 +360,7 @@ func main() {
 		}
 		je := map[string]any{
 			"job": job.Name, "entry": job.Pkg + "." + job.Entry, "bound": job.Bound, "n": job.N, "step_budget_per_path": job.Budget,
-			"paths": res.Paths, "path_ends": res.EndKinds, "ssa_steps": res.Steps, "decisions": res.Decisions,
+			"paths": res.Paths, "path_ends": res.EndKinds, "ssa_steps": res.Steps, "max_ssa_steps_on_a_completed_path": res.MaxSteps, "decisions": res.Decisions,
 			"branch_conditions_folded_by_facts": res.Folded,
 			"solver_queries": res.Queries, "sat": res.Sat, "unsat": res.Unsat, "unknown": res.Unknown,
 			"solver_time_s": res.SolverTime.Seconds(), "wall_s": res.Wall.Seconds(),
@@ -399,6 +437,7 @@ func main() {
 	os.WriteFile(filepath.Join("/verif/evidence", prop.ID+".json"), b, 0o644)
 	fmt.Printf("%s %s: paths=%d queries=%d unsat=%d classes=%d violations=%d wall=%.1fs exit=%d\n", prop.ID, *tier, totalPaths, totalQueries, totalUnsat, len(reports), violations, time.Since(t0).Seconds(), exit)
 	nat.Close()
+	pprof.StopCPUProfile()
 	os.Exit(exit)
 }
 
@@ -446,6 +485,9 @@ func writeReplay(id string, n int, v *Violation, job *Job, rr ReplayResult) stri
 
 // ---- translator validation ----
 
+var tvRetry sync.Mutex
+var lastOut string
+
 type TVResult struct {
 	Files  int
 	Same   int
@@ -479,7 +521,7 @@ func translatorValidation(prog *ssa.Program, nat *Native, k int, seed int64, nw 
 	for i := 0; i < nw; i++ {
 		go func() {
 			defer func() { done <- true }()
-			w, err := newWorker(prog, "ti", solverBin)
+			w, err := newWorker(prog, "ti", solverBin, configRoot(""))
 			if err != nil {
 				out <- item{"", "worker: " + err.Error()}
 				return
@@ -489,6 +531,12 @@ func translatorValidation(prog *ssa.Program, nat *Native, k int, seed int64, nw 
 				b, _ := os.ReadFile(f)
 				name := "./" + filepath.Base(f)
 				natOut, _, _ := nat.RunTi(map[string]string{filepath.Base(f): string(b)}, []string{name}, "")
+				// the 500 ms watchdog may fire spuriously while all cores are busy: retry
+				for try := 0; try < 4 && strings.TrimSpace(natOut) == "timeout"; try++ {
+					tvRetry.Lock()
+					natOut, _, _ = nat.RunTi(map[string]string{filepath.Base(f): string(b)}, []string{name}, "")
+					tvRetry.Unlock()
+				}
 				job := &Job{Name: "tv", Budget: 400000000, Source: string(b), File: name}
 				w.resetPath(job, nil)
 				status := "ok"
